@@ -128,6 +128,10 @@ def generate(rng, tier):
             s["np"] = rng.choice([["start"], ["start"], ["start", "end"], ["freq"], ["start", "end", "freq"], ["end"]])
     out = dict({"systems": systems, "ops": ops, "spawns": spawns, "raises": raises}, **gen_flavour(rng))
     out["finish_then_bad"] = rng.random() < 0.25     # arguments are validated whatever state the model is in
+    if systems and rng.random() < 0.1:
+        # a system may be called anything: also what the model or the scheduler call their own attributes
+        systems[rng.randrange(len(systems))]["id"] = rng.choice(["timestep", "timestep", "systems", "environment", "random", "logger", "execute",
+                                                                  "complete", "model", "execution_queue", "_status", "component_pools"])
     return out
 
 
